@@ -574,6 +574,13 @@ def rowNumberOneAux (key : Row → Val) (pre : Table) : Table → Table
 
 def rowNumberOne (key : Row → Val) (t : Table) : Table := rowNumberOneAux key [] t
 
+/-- SELECT DISTINCT over a one-column projection: first occurrences of the values -/
+def dedupValsAux (seen : List Val) : List Val → List Val
+  | [] => []
+  | v :: vs => if seen.contains v then dedupValsAux seen vs else v :: dedupValsAux (v :: seen) vs
+
+def dedupVals (vs : List Val) : List Val := dedupValsAux [] vs
+
 /-- SELECT DISTINCT ON (key) … ORDER BY ord LIMIT lim — `ord` is the ORDER BY as a function on tables -/
 def distinctOnOriginal (key : Row → Val) (ord : Table → Table) (lim : Option Nat) (t : Table) : Table :=
   limitOffset lim 0 (firstPerKey key (ord t))
